@@ -58,6 +58,28 @@ def ref_min_hosts(topo, sens_count):
     return best
 
 
+def advertised_hops(topo, sens_count):
+    """the hop count an ENVIRONMENT built on this topology advertises (public API: NASimEnv.get_minimum_hops),
+    for a minimal scenario with one host per subnet (two where a subnet holds two sensitive hosts)"""
+    from nasim.envs import NASimEnv
+    from .spec import to_scenario
+    n = len(topo) - 1
+    subnets = [max(1, sens_count.get(s, 0)) for s in range(1, n + 1)]
+    spec = {"name": "c20", "subnets": subnets, "topology": [list(r) for r in topo], "os": ["os0"], "services": ["s0"],
+            "processes": ["p0"],
+            "exploits": {"e0": {"service": "s0", "os": None, "prob": 1.0, "cost": 1, "access": ROOT}}, "privescs": {},
+            "scan_costs": {"service": 1, "os": 1, "subnet": 1, "process": 1}, "hosts": {}, "sensitive_hosts": {},
+            "firewall": {(i, j): ["s0"] for i in range(n + 1) for j in range(n + 1) if i != j and topo[i][j] == 1},
+            "step_limit": None, "address_space_bounds": None}
+    for s_, size in enumerate(subnets, start=1):
+        for h in range(size):
+            spec["hosts"][(s_, h)] = {"os": "os0", "services": ["s0"], "processes": ["p0"], "discovery_value": 0.0, "firewall": {}}
+            if h < sens_count.get(s_, 0):
+                spec["sensitive_hosts"][(s_, h)] = 10
+    env = NASimEnv(to_scenario(spec))
+    return int(env.get_minimum_hops())
+
+
 def shortest_walk(topo, need):
     """the pre-fix quantity: shortest walk from the internet visiting all sensitive subnets (for the non-trivial count)"""
     n = len(topo)
@@ -122,6 +144,80 @@ def all_trees(n):
         yield t
 
 
+def structured_topologies():
+    """topologies beyond the exhaustive bound, built from patterns with many sensitive subnets / several public relays:
+    stars and brooms with up to 10 leaves; r public relays with one subnet behind each and hubs joining subsets of
+    those; double stars. Yields (topology, list of candidate sensitive-subnet sets)."""
+    def base(n, public):
+        N = n + 1
+        t = [[1 if i == j else 0 for j in range(N)] for i in range(N)]
+        for p in public:
+            t[0][p] = t[p][0] = 1
+        return t
+
+    def link(t, a, b):
+        t[a][b] = t[b][a] = 1
+
+    for k in range(2, 11):                               # star: DMZ + k leaves
+        t = base(k + 1, [1])
+        for leaf in range(2, k + 2):
+            link(t, 1, leaf)
+        leaves = list(range(2, k + 2))
+        yield t, [tuple(leaves), tuple(leaves[:-1]), tuple(leaves[1:]), tuple(leaves[::2])]
+    for k in range(2, 9):                                # broom: chain 1-2 then k leaves on 2
+        t = base(k + 2, [1])
+        link(t, 1, 2)
+        for leaf in range(3, k + 3):
+            link(t, 2, leaf)
+        leaves = list(range(3, k + 3))
+        yield t, [tuple(leaves), tuple(leaves[:-1]), tuple([2] + leaves[:2])]
+    for r in (2, 3, 4):                                  # r public relays, a subnet behind each, hubs over subsets
+        relays = list(range(1, r + 1))
+        behind = list(range(r + 1, 2 * r + 1))
+        for size in range(2, r + 1):
+            for members in itertools.combinations(behind, size):
+                for two_hubs in (False, True):
+                    n = 2 * r + (2 if two_hubs else 1)
+                    t = base(n, relays)
+                    for a, b in zip(relays, behind):
+                        link(t, a, b)
+                    hub = 2 * r + 1
+                    for m in members:
+                        link(t, hub, m)
+                    if two_hubs:
+                        link(t, hub, hub + 1)
+                        link(t, hub + 1, behind[0])
+                    sets = [tuple(behind), tuple(members), tuple(behind) + (hub,), tuple(members) + (hub,)]
+                    yield t, sets
+
+
+def _struct_job(_):
+    import_nasim()
+    from nasim.envs.utils import get_minimal_hops_to_goal
+    out = {"cases": 0, "nontrivial": 0, "violations": [], "unreachable": 0}
+    for t, sets in structured_topologies():
+        for subs in sets:
+            for double in (False, True):
+                sens_count = {s: (2 if (double and s == subs[0]) else 1) for s in subs}
+                ref = ref_min_hosts(t, sens_count)
+                if ref is None:
+                    out["unreachable"] += 1
+                    continue
+                addrs = []
+                for s_, c in sens_count.items():
+                    addrs += [(s_, h) for h in range(c)]
+                hops = advertised_hops(t, sens_count)
+                out["cases"] += 1
+                if len(subs) <= 7 and shortest_walk(t, subs) > ref_min_hosts(t, {s_: 1 for s_ in subs}):
+                    out["nontrivial"] += 1
+                if hops > ref and len(out["violations"]) < 3:
+                    out["violations"].append({
+                        "property": "C20", "kind": "advertised_minimum_hops_exceed_hosts_that_must_be_compromised",
+                        "engine": "topology_enumeration", "topology": t, "sensitive_addresses": addrs,
+                        "detail": {"advertised_hops": hops, "minimum_hosts": ref, "family": "structured"}})
+    return out
+
+
 def _topo_job(args):
     n, only1, part, parts = args
     import_nasim()
@@ -142,7 +238,7 @@ def _topo_job(args):
                     addrs = []
                     for s, c in sens_count.items():
                         addrs += [(s, h) for h in range(c)]
-                    hops = int(get_minimal_hops_to_goal(np.array(t), addrs))
+                    hops = advertised_hops(t, sens_count)
                     out["cases"] += 1
                     if shortest_walk(t, subs) > ref_min_hosts(t, {s: 1 for s in subs}):
                         out["nontrivial"] += 1
@@ -392,6 +488,7 @@ def run(pid, tier):
             tj += [(5, False, p, 64) for p in range(64)]
             tj += [(7, "trees", p, 128) for p in range(128)]   # all 16807 labelled trees on 7 subnets
         res2 = pool.map(_topo_job, tj, chunksize=1)
+        res2 += pool.map(_struct_job, [0])
     violations = [v for r in res1 for v in r["violations"]] + [v for r in res2 for v in r["violations"]]
     # report each kind once per engine with a replay; count all
     states = sum(r["states"] for r in res1)
@@ -424,7 +521,7 @@ def replay(pid, rec):
         cnt = {}
         for s, h in addrs:
             cnt[s] = cnt.get(s, 0) + 1
-        hops = int(get_minimal_hops_to_goal(np.array(rec["topology"]), addrs))
+        hops = advertised_hops(rec["topology"], cnt)
         ref = ref_min_hosts(rec["topology"], cnt)
         return [{"kind": rec["kind"], "detail": {"advertised_hops": hops, "minimum_hosts": ref}}] if hops > ref else []
     r = _scen_job(rec["choice"])
